@@ -609,6 +609,118 @@ def composite_names_case(ctx, rng, idx):
             return
 
 
+def reduced_reselect_case(ctx, rng, idx):
+    """a covariate model inside a ReducedPopulationModel: parameters are
+    fixed by NAME; when the selection of transformed parameters is changed
+    afterwards (through get_population_model(), the only place where it
+    can be changed), a fixed name that still exists stays fixed at its
+    value, a name that no longer exists is dropped, and nothing else gets
+    fixed - whatever the sizes of the old and the new selection"""
+    kind = 'GL'[int(rng.integers(2))]
+    n_dim = int(rng.integers(1, 3))
+    n_cov = int(rng.integers(1, 3))
+    n_ids = int(rng.integers(1, 4))
+    full_sel = [[p_, d] for p_ in range(2) for d in range(n_dim)]
+
+    def pick_sel():
+        k = int(rng.integers(1, len(full_sel) + 1))
+        return sorted(full_sel[i] for i in rng.permutation(
+            len(full_sel))[:k])
+    sel1, sel2 = pick_sel(), pick_sel()
+    if rng.random() < 0.6:
+        # same size, other pairs
+        cand = [pick_sel() for _ in range(6)]
+        cand = [c for c in cand if len(c) == len(sel1) and c != sel1]
+        if cand:
+            sel2 = cand[0]
+    base = (chi.GaussianModel if kind == 'G' else chi.LogNormalModel)(
+        n_dim=n_dim)
+    cpm = chi.CovariatePopulationModel(
+        base, chi.LinearCovariateModel(n_cov=n_cov))
+    cpm.set_population_parameters(sel1)
+    red = chi.ReducedPopulationModel(cpm)
+    names1 = red.get_parameter_names()
+    k_fix = int(rng.integers(1, len(names1)))
+    fixed = dict((names1[i], float(rng.uniform(0.05, 0.3)))
+                 for i in rng.permutation(len(names1))[:k_fix])
+    feats = {'mode': 'reduced_reselect', 'kind': kind, 'n_dim': n_dim,
+             'n_cov': n_cov, 'same_size': len(sel1) == len(sel2),
+             'selection_before': sel1, 'selection_after': sel2,
+             'fixed': sorted(fixed)}
+    ctx.case(('reduced_reselect', kind, n_dim, n_cov, len(sel1), len(sel2)),
+             True, sample=feats)
+    try:
+        red.fix_parameters(fixed)
+        # (an evaluation in between fills the wrapper's value buffer)
+        red.compute_log_likelihood(
+            np.full(red.n_parameters(), 0.4), np.full((n_ids, n_dim), 0.7),
+            covariates=np.full((n_ids, n_cov), 0.1))
+        red.get_population_model().set_population_parameters(sel2)
+        twin = chi.CovariatePopulationModel(
+            (chi.GaussianModel if kind == 'G' else chi.LogNormalModel)(
+                n_dim=n_dim), chi.LinearCovariateModel(n_cov=n_cov))
+        twin.set_population_parameters(sel2)
+        full_names = twin.get_parameter_names()
+        want_free = [n_ for n_ in full_names if n_ not in fixed]
+        got_free = red.get_parameter_names()
+    except Exception as e:      # noqa
+        ctx.violation_exc('evaluation_raises', e, {'case': feats}, feats)
+        return
+    ctx.count('reduced_reselections')
+    if got_free != want_free or red.n_parameters() != len(want_free):
+        ctx.violation('fixed_by_name_across_reselection',
+                      'free_names_after_reselection',
+                      {'free names': got_free, 'expected': want_free,
+                       'n_parameters': red.n_parameters()}, feats)
+        return
+    vals = dict((n_, float(rng.uniform(0.2, 0.6))) for n_ in want_free)
+    x_full = np.array([fixed.get(n_, vals.get(n_)) for n_ in full_names])
+    x_free = np.array([vals[n_] for n_ in want_free])
+    obs = rng.uniform(0.4, 0.9, size=(n_ids, n_dim))
+    cov = rng.uniform(-1, 1, size=(n_ids, n_cov))
+    try:
+        got = red.compute_log_likelihood(x_free, obs, covariates=cov)
+        want = twin.compute_log_likelihood(x_full, obs, cov)
+    except Exception as e:      # noqa
+        ctx.violation_exc('evaluation_raises', e, {'case': feats}, feats)
+        return
+    if not ctx.close(got, want, rtol=1e-12, scale=abs(want) + 1):
+        ctx.violation('fixed_by_name_across_reselection',
+                      'value_after_reselection',
+                      {'reduced model': got,
+                       'covariate model at the named values': want,
+                       'free names': got_free}, feats)
+
+
+def kept_dim_names_case(ctx, rng, idx):
+    """dimension names given to the underlying model are the ones the
+    covariate model publishes (the names identify the dimension a
+    coefficient acts on)"""
+    kind = 'GLTP'[idx % 4]
+    n_dim = int(rng.integers(1, 4))
+    dims = ['clearance', 'volume', 'ka', 'tlag'][:n_dim]
+    cls = {'G': chi.GaussianModel, 'L': chi.LogNormalModel,
+           'T': chi.TruncatedGaussianModel, 'P': chi.PooledModel}[kind]
+    feats = {'mode': 'kept_dim_names', 'kind': kind, 'n_dim': n_dim}
+    ctx.case(('kept_dim_names', kind, n_dim), True, sample=feats)
+    try:
+        base = cls(n_dim=n_dim, dim_names=list(dims))
+        cpm = chi.CovariatePopulationModel(
+            base, chi.LinearCovariateModel(n_cov=1))
+        got = cpm.get_dim_names()
+        names = cpm.get_parameter_names()
+    except Exception as e:      # noqa
+        ctx.violation_exc('evaluation_raises', e, {'case': feats}, feats)
+        return
+    ctx.count('dim_name_checks')
+    if list(got) != dims or not all(
+            any(d in n_ for d in dims) for n_ in names):
+        ctx.violation('names_identify_parameter_dimension_covariate',
+                      'dimension_names_of_wrapped_model_discarded',
+                      {'given': dims, 'published': got, 'names': names},
+                      feats)
+
+
 FAMILIES = [
     Family('random', random_case, quick=2100, thorough=42000),
     Family('exhaustive', exhaustive_case, quick=len(_SELS),
@@ -617,4 +729,7 @@ FAMILIES = [
     Family('sample', sample_case, quick=80, thorough=600),
     Family('composite_names', composite_names_case, quick=150,
            thorough=1500),
+    Family('reduced_reselect', reduced_reselect_case, quick=200,
+           thorough=2000),
+    Family('kept_dim_names', kept_dim_names_case, quick=24, thorough=120),
 ]
